@@ -361,7 +361,14 @@ fn well_typed(src: &mut Src, st: &mut Stats, _env: &Env) -> CaseResult {
     for i in 0..n {
         let tys: &[Ty] = if i < sig.params.len() { sig.params[i] } else { sig.variadic.unwrap() };
         let t = tys[src.below(tys.len())];
-        let v = gen_value_of(src, t);
+        let mut v = gen_value_of(src, t);
+        if matches!(v, J::Str(_)) && matches!(sig.name, "to_number" | "to_string" | "to_array" | "type" | "not_null" | "length" | "reverse") && src.chance(100) {
+            // text that is (almost) a JSON value: what comes back must still be of the declared type
+            v = J::Str(crate::gen_doc::gen_jsonish(src));
+        }
+        if sig.name == "to_number" && src.chance(128) {
+            v = J::Str(crate::gen_doc::gen_jsonish(src));
+        }
         if src.chance(60) && !matches!(v, J::Num(crate::model::N::F(_))) {
             args.push(crate::print::spell_literal(&v, &mut crate::print::Spell::plain()));
         } else {
@@ -398,8 +405,8 @@ pub fn property() -> Property {
         subs: vec![
             Sub::Custom(CustomSub { name: "table", run: table, replay: replay_cell }),
             Sub::Custom(CustomSub { name: "wide-arity", run: wide_arity, replay: replay_wide }),
-            Sub::Bytes(BytesSub { name: "well-typed", f: well_typed, max_len: 1500, quick: Budget { threads: 8, cases: 4000 }, thorough: Budget { threads: 16, cases: 150_000 }, keep_unreproducible: false }),
-            Sub::Bytes(BytesSub { name: "call-sequences", f: call_sequences, max_len: 2000, quick: Budget { threads: 8, cases: 2500 }, thorough: Budget { threads: 16, cases: 100_000 }, keep_unreproducible: false }),
+            Sub::Bytes(BytesSub { name: "well-typed", f: well_typed, max_len: 1500, quick: Budget { threads: 8, cases: 16000 }, thorough: Budget { threads: 16, cases: 150_000 }, keep_unreproducible: false }),
+            Sub::Bytes(BytesSub { name: "call-sequences", f: call_sequences, max_len: 2000, quick: Budget { threads: 8, cases: 10000 }, thorough: Budget { threads: 16, cases: 100_000 }, keep_unreproducible: false }),
         ],
     }
 }
